@@ -618,5 +618,15 @@ func ReturnIsError(info *types.Info, ret *ast.ReturnStmt) bool {
 	if !types.Implements(tv.Type, errIface) {
 		return false
 	}
+	// a call whose static result type is the interface `error` is a delegation
+	// (`return d.dec.DecodeStream(…)`), not a definite error, unless it is a
+	// well-known constructor
+	if call, ok := last.(*ast.CallExpr); ok && IsErrorType(tv.Type) {
+		switch CalleeName(info, call) {
+		case "fmt.Errorf", "errors.New":
+			return true
+		}
+		return false
+	}
 	return true
 }
